@@ -24,8 +24,11 @@ ADAPTERS = {
     ("graph::adapter::UnionGraph<T>", "graph::Graph"): {
         "triples": dict(callee=r"Dataset>?::quads$", args=[], post="into_triple"),
         "triples_matching": dict(callee=r"Dataset>?::quads_matching$", args=["p2", "p3", "p4", "any"], post="into_triple"),
-        "subjects": "same", "predicates": "same", "objects": "same", "iris": "same", "blank_nodes": "same",
-        "literals": "same", "quoted_triples": "same", "variables": "same",
+        # NB: iris / blank_nodes / literals / quoted_triples / variables must NOT be forwarded to the dataset: the dataset's
+        # versions also yield the terms used as graph names, which are not terms of the union graph (the table used to list
+        # them as "same"; the hunt round showed `union_graph().iris()` reporting <x:g> for the one quad `_:s <x:p> "o" <x:g>`;
+        # repaired in 282c9f2 by removing the overrides, so an override of one of them is now an unaudited override)
+        "subjects": "same", "predicates": "same", "objects": "same",
     },
     ("graph::adapter::PartialUnionGraph<D, M>", "graph::Graph"): {
         "triples": dict(callee=r"Dataset>?::quads_matching$", args=["any", "any", "any", "field:m"], post="into_triple"),
@@ -268,7 +271,7 @@ def run(ck, facts, tier):
                 check_method(ck, facts, adapter, trait, name, fn, spec)
             except CheckError as e:
                 ck.bad("R11.1", "R11.1@%s::%s#shape" % (adapter, name), str(e), fn.loc)
-    ck.floor("R11.1", "adapter forwarding methods", n, 30)
+    ck.floor("R11.1", "adapter forwarding methods", n, 25)   # 30 until the five wrong UnionGraph forwards were removed (282c9f2)
     ck.assumptions = ["coherence over mutation histories is not decided; it relies on the wrapped store (C01)"]
     ck.trusted = ["rustc MIR (resolved trait-method callees, argument provenance)"]
     import witness
